@@ -26,7 +26,7 @@ CLAIMED = {
     "C04": dict(cat="model_checking", ref="DESIGN.md 4.1, 5/C04", note=SM_NOTE,
                 text="TLC checks 'stopped means reset', 'every stop passes through done()', 'restart at tm=0' and 'running means is_executing' exhaustively (bounded) on the spec, with teeth shown by the two pre-fix deviations; done() invocations, is_executing and current_state (python attribute and NetworkTables topic) of the real code are validated step by step against the spec on random histories and replayed spec behaviours.",
                 tech="TLA+ spec MagicSM + TLC exhaustive invariants; TLC batch trace validation; simulated behaviours replayed"),
-    "C13": dict(cat="model_checking", ref="DESIGN.md 4.2, 5/C13", note=SM_NOTE + " on_enable() while the machine is still latched on (no on_disable() in between) is outside the explored space.",
+    "C13": dict(cat="model_checking", ref="DESIGN.md 4.2, 5/C13", note=SM_NOTE + " on_iteration() before any on_enable() is outside the explored space.",
                 text="The autonomous variant is the same spec with the latch and the request-withdrawing done(); TLC checks never-cycles / silent-when-off / latch-follows-is_executing exhaustively on three autonomous shapes, and validates on_enable/on_iteration/on_disable histories of the real AutonomousStateMachine (all clauses owned by C13) plus replayed spec behaviours.",
                 tech="TLA+ spec MagicSM (auto variant) + TLC exhaustive invariants; TLC batch trace validation; simulated behaviours replayed"),
 }
